@@ -28,7 +28,8 @@ import z3
 __all__ = (
     'Abort', 'BudgetExhausted', 'ReplayDivergence', 'HarnessError',
     'Explorer', 'Path', 'SymBool', 'SymInt', 'SymIntI', 'current',
-    'sym_and', 'sym_or', 'sym_not', 'concretize')
+    'sym_and', 'sym_or', 'sym_not', 'concretize', 'SymDriver', 'ReplayDriver',
+    'model_values')
 
 
 class Abort(BaseException):
@@ -48,9 +49,10 @@ class ReplayDivergence(HarnessError):
 
 
 class Path:
-    __slots__ = ('pc', 'decisions', 'kind', 'value', 'notes')
+    __slots__ = ('pc', 'decisions', 'kind', 'value', 'notes', 'picks')
 
-    def __init__(self, pc, decisions, kind, value, notes):
+    def __init__(self, pc, decisions, kind, value, notes, picks=()):
+        self.picks = picks          # tuple of the n-ary pick values, in order
         self.pc = pc                # list of z3 BoolRef
         self.decisions = decisions  # tuple of ints
         self.kind = kind            # 'ok' | 'exc'
@@ -108,6 +110,8 @@ class Explorer:
         self.pending: list = []
         self.model = None
         self.notes: dict = {}
+        self.pick_log: list = []
+        self.decided: dict = {}
 
     # -- solver helpers -----------------------------------------------------
 
@@ -150,6 +154,10 @@ class Explorer:
         if z3.is_false(cond):
             return False
         h = cond.hash()
+        known = self.decided.get(h)
+        if known is not None and known[1].eq(cond):
+            # the same term was already decided on this path
+            return known[0]
         self.decisions_total += 1
         if self.pos < len(self.prefix):
             d, eh = self.prefix[self.pos]
@@ -187,6 +195,7 @@ class Explorer:
         c = cond if d else z3.Not(cond)
         self.pc.append(c)
         self.solver.add(c)
+        self.decided[h] = (d, cond)
         if self.pos <= len(self.prefix):
             self.model = None
         return d
@@ -216,6 +225,7 @@ class Explorer:
                 self.pending.append(base + ((alt, h),))
         self.pos += 1
         self.trace.append(d)
+        self.pick_log.append(d)
         self.sig.append(h)
         c = term == d
         self.pc.append(c)
@@ -268,6 +278,8 @@ class Explorer:
                 self.pending = []
                 self.model = None
                 self.notes = {}
+                self.pick_log = []
+                self.decided = {}
                 self.solver.push()
                 _CUR = self
                 try:
@@ -291,7 +303,8 @@ class Explorer:
                 if res is None:
                     self.aborted += 1
                 else:
-                    p = Path(list(self.pc), tuple(self.trace), res[0], res[1], self.notes)
+                    p = Path(list(self.pc), tuple(self.trace), res[0], res[1], self.notes,
+                             tuple(self.pick_log))
                     self.paths.append(p)
                     if self.on_path is not None:
                         self.on_path(p)
@@ -601,6 +614,73 @@ class SymIntI(_SymIntOps, int):
 
     def __format__(self, spec):
         return format(self.concretize(), spec)
+
+
+class SymDriver:
+    'Harness-side source of symbolic inputs (the active explorer).'
+    symbolic = True
+
+    def pick(self, n, label='pick'):
+        return current().pick(n, label)
+
+    def int(self, name):
+        return SymInt(name)
+
+    def const(self, n):
+        'A concrete integer that hashes like the symbolic ones.'
+        return SymInt(int(n))
+
+    def bool(self, name):
+        return SymBool(name)
+
+    def note(self, key, value):
+        current().note(key, value)
+
+
+class ReplayDriver:
+    '''Concrete replay of one path: recorded picks, witness values, no
+    proxies and no solver.  Used by `replay` functions in a fresh process.'''
+    symbolic = False
+
+    def __init__(self, picks, values):
+        self.picks = list(picks)
+        self.values = dict(values)
+        self.i = 0
+
+    def pick(self, n, label='pick'):
+        if self.i >= len(self.picks):
+            raise HarnessError('replay ran out of recorded picks')
+        v = self.picks[self.i]
+        self.i += 1
+        if not 0 <= v < n:
+            raise HarnessError(f'recorded pick {v} out of range {n} at {label}')
+        return v
+
+    def int(self, name):
+        return int(self.values.get(name, 0))
+
+    def const(self, n):
+        return int(n)
+
+    def bool(self, name):
+        return bool(self.values.get(name, False))
+
+    def note(self, key, value):
+        pass
+
+
+def model_values(model):
+    'name -> python value of a z3 model (ints and bools).'
+    out = {}
+    if model is None:
+        return out
+    for d in model.decls():
+        v = model[d]
+        if z3.is_int_value(v):
+            out[d.name()] = v.as_long()
+        elif z3.is_true(v) or z3.is_false(v):
+            out[d.name()] = z3.is_true(v)
+    return out
 
 
 def concretize(x):
